@@ -266,6 +266,14 @@ class FnTranslator:
             a0 = self.atom(self.E(args[0]))
             a1 = self.atom(self.E(args[1])) if len(args) == 2 else a0
             return f"({self.atom(self.E(f.value))}.scale {a0} {a1})"
+        if isinstance(f, ast.Attribute) and f.attr == "inverse" and not args and not n.keywords:
+            # Affine2D.inverse(): identity -> itself, |det| <= float epsilon -> the degenerate matrix (Model/Affine.lean inverseEps)
+            return f"(Aff.inverseEps Gen.FLOAT_EPSILON {self.atom(self.E(f.value))})"
+        plain = self.fspec.get("externs_plain", {})
+        if name in plain:
+            if self.lambda_depth:
+                raise Untranslatable("monadic call inside a comprehension")
+            return f"(← {plain[name]} " + " ".join(self.atom(self.E(a)) for a in args) + ")"
         externs = self.fspec.get("externs", {})
         if name in externs:
             if self.lambda_depth:
@@ -569,6 +577,10 @@ SPECS = {
                       "params": {"config": "Dropped", "name": "Dropped"}, "opaque_type": "Option α",
                       "opaque": {"config.pop(name, None)": "file_value", "getattr(FLAGS, name)": "flag_in",
                                  "getattr(_DEFAULT_CONFIG, name)": "default_in"}},
+    }}),
+    "TrColrToSvg": ("src/nanoemoji/colr_to_svg.py", {"imports": ["NanoVerif.Generated.TrColorGlyph"], "functions": {
+        "map_font_space_to_viewbox": {"lean": "map_font_space_to_viewbox", "ret": "Aff", "params": {"view_box": "Rect", "glyph_region": "Rect"},
+                                      "externs_plain": {"color_glyph.map_viewbox_to_font_space": "map_viewbox_to_font_space"}},
     }}),
     "TrColorGlyph": ("src/nanoemoji/color_glyph.py", {"functions": {
         "scale_viewbox_to_font_metrics": {"lean": "scale_viewbox_to_font_metrics", "ret": "Aff", "params": {"view_box": "Rect"}},
